@@ -119,7 +119,7 @@ _case_counter = [0]
 
 def run_inproc(argv, world_json=None, trace=None, plan=None, cwd=None,
                env_extra=None, pre=None, post=None, warnings=None,
-               defaults=None, stdin=None, purge=('w',)):
+               defaults=None, stdin=None, purge=('w',), purge_under=None):
     """Call the real run_internal in this process.
 
     purge: prefixes of world module names to drop from sys.modules."""
@@ -192,8 +192,19 @@ def run_inproc(argv, world_json=None, trace=None, plan=None, cwd=None,
         os.chdir(old_cwd)
         sys.path[:] = old_path
         for m in list(sys.modules):
-            if m not in old_mods and purge and m.startswith(tuple(purge)):
+            if m in old_mods:
+                continue
+            if purge and m.startswith(tuple(purge)):
                 del sys.modules[m]
+            elif purge_under:
+                mod = sys.modules[m]
+                f = getattr(mod, '__file__', None) or ''
+                pp = list(getattr(mod, '__path__', None) or [])
+                if f.startswith(purge_under) or any(
+                        str(x).startswith(purge_under) for x in pp):
+                    del sys.modules[m]
+        import importlib
+        importlib.invalidate_caches()
         for h in list(logging.getLogger().handlers):
             if h not in old_handlers:
                 logging.getLogger().removeHandler(h)
